@@ -6,8 +6,8 @@ after cleanup / tracked operation objects) are evaluated independently of the mo
 import os, random, re, subprocess, time
 from . import vlib
 
-# UBSan without the vptr check: a second destructor call on a polymorphic operation object (DESIGN §8 #6) is
-# reported by the harness's own tracked-object monitors instead of aborting the process on every such case
+# UBSan without the vptr check: a second destructor call on a polymorphic operation object is reported by the
+# harness's own tracked-object monitors (deterministic, model-independent) instead of a process abort
 SANITIZE = ("address,null,alignment,bounds,signed-integer-overflow,shift,bool,enum,return,unreachable,pointer-overflow,"
             "object-size,integer-divide-by-zero,vla-bound,nonnull-attribute,returns-nonnull-attribute,builtin")
 
@@ -265,8 +265,6 @@ class StreamPart:
             return
         cov["sanitizer_aborts"] = cov.get("sanitizer_aborts", 0) + len(crashes)
         for k, site, err in crashes:
-            if "(tu " in lines[k] or "(situ " in lines[k]:
-                site += " (pipeline with take_until)"
             verdict.add(f"{self.name}: {site}", f"the real library aborted under ASan/UBSan on a generated pipeline: {lines[k]}",
                         dict(stream=self.name, case=lines[k], sanitizer_report=err), found_input=True)
         keep = [i for i, x in enumerate(impl) if x is not None]
@@ -287,11 +285,7 @@ class StreamPart:
             cons_hist[ck] = cons_hist.get(ck, 0) + 1
             trace, mons = split_monitors(a)
             ub = any(m.startswith(UB_MONITORS) for m in mons)
-            # object-lifetime monitors are attributed to take_until when the pipeline contains one (DESIGN §8 #6), so that
-            # a known finding there cannot mask a lifetime defect of another adaptor
-            tu = " (pipeline with take_until)" if ("(tu " in parts[2] or "(situ " in parts[2]) else ""
             for m in primary_monitors(mons, trace.endswith("stuck")):
-                m = m + (tu if m.startswith(("op-", "leak")) else "")
                 verdict.add(f"{self.name}: monitor {m}", f"implementation monitor fired: {a}",
                             dict(stream=self.name, case=l, impl=a, model=b), found_input=True)
             if "!!fuel" in b or b.startswith("bad-case"):
